@@ -313,6 +313,7 @@ def run(idx: ProgramIndex, rep: Report, tier: str):
             probs.append("rows are not indexed by i1 and columns by i2")
     rep.add("C09-2", "%s:IndexKernel" % IK.module.name, dense.where, not probs, "B B^T + diag(var) (dense) and Root(B) + Diag(var) (operator); rows i1, columns i2" if not probs else "; ".join(sorted(set(probs))), {})
     grid_enumeration(idx, rep)
+    evaluation_is_pure(idx, rep)
 
 
 # ---- C09-5: one enumeration order of the grid points for every producer and consumer ---------------------------------------
@@ -442,3 +443,102 @@ def grid_enumeration(idx: ProgramIndex, rep: Report):
                     "dimension 0 varies %s, consistently within the group indexed by %s" % ("fastest" if kind == "FIRST" else "slowest", gname) if ok else
                     "the %s enumerate the grid with dimension 0 varying %s, but the %s with dimension 0 varying %s (both are indexed by %s): for dimensions that differ (grid size, bounds, ARD lengthscale) interpolation weights / grid points are paired with the covariance of other grid points" % (
                         what, {"FIRST": "fastest", "LAST": "slowest"}.get(kind, kind), ref_name, {"FIRST": "fastest", "LAST": "slowest"}.get(ref, ref), gname), {"order": kind})
+
+
+# ---- C09-6 ---------------------------------------------------------------------------------------------------------
+def evaluation_is_pure(idx: ProgramIndex, rep: Report):
+    """A kernel-specific prediction strategy caches train-side quantities (K_UU, interpolation weights of the training inputs, the mean
+    cache) from one evaluation of the kernel and combines them with a later evaluation at the test inputs.  That is the dense
+    conditional 'for the approximate kernel matrix they represent' only if both evaluations speak about the same approximate kernel:
+    evaluating a kernel must not rewrite the structural state the approximation is defined by (grid, bounds, feature weights).  Allowed
+    in forward/__call__: cache attributes, added-loss bookkeeping, and one-time initialisation guarded by `not hasattr(self, <what is
+    initialised>)`."""
+    rep.rule("C09-6", "evaluating a kernel does not rewrite the structural state its approximation is defined by (grid, bounds, feature weights): only caches, loss bookkeeping and one-time guarded initialisation")
+    from ..index import walk_no_nested
+    from . import c03
+    K = idx.cls(idx.package + ".kernels.kernel", "Kernel")
+    caches = {a for _c, a, _w in c03.attribute_caches(idx)}
+    n = 0
+
+    def registers(cls, mname, seen=None) -> Set[str]:
+        """names registered (transitively) by self.mname"""
+        seen = seen or set()
+        if mname in seen:
+            return set()
+        seen.add(mname)
+        fi = cls.lookup(mname)
+        out: Set[str] = set()
+        if fi is None or not fi.module.name.startswith(idx.package):
+            return out
+        for c in calls_in(fi.node):
+            if isinstance(c.func, ast.Attribute) and chain(c.func.value) == "self":
+                if c.func.attr in ("register_buffer", "register_parameter") and c.args and isinstance(c.args[0], ast.Constant):
+                    out.add(c.args[0].value)
+                elif c.func.attr == "register_buffer_list" and c.args and isinstance(c.args[0], ast.Constant):
+                    out.add(c.args[0].value + "_*")
+                else:
+                    out |= registers(cls, c.func.attr, seen)
+            elif chain(c.func) == "setattr" and len(c.args) == 3 and src(c.args[0]) == "self":
+                out.add("<setattr %s>" % src(c.args[1])[:30])
+        return out
+
+    def guards_of(fn, node):
+        out = []
+
+        def rec(stmts, acc):
+            for st in stmts:
+                if any(x is node for x in ast.walk(st)):
+                    if isinstance(st, ast.If):
+                        if any(x is node for b in st.body for x in ast.walk(b)):
+                            rec(st.body, acc + [(st.test, True)])
+                        elif any(x is node for b in st.orelse for x in ast.walk(b)):
+                            rec(st.orelse, acc + [(st.test, False)])
+                        else:
+                            out.extend(acc)
+                    elif isinstance(st, (ast.For, ast.While, ast.With, ast.Try)):
+                        for blk in (getattr(st, "body", []), getattr(st, "orelse", []), getattr(st, "finalbody", [])):
+                            if any(x is node for b in blk for x in ast.walk(b)):
+                                rec(blk, acc)
+                    else:
+                        out.extend(acc)
+                    return
+        rec(fn.body, [])
+        return out
+
+    for cls in sorted(idx.package_classes(), key=lambda c: (c.module.name, c.qualname)):
+        if not cls.is_subclass_of(K):
+            continue
+        for mn in ("forward", "__call__"):
+            fi = cls.methods.get(mn)
+            if fi is None:
+                continue
+            n += 1
+            probs = []
+            for node in walk_no_nested(fi.node):
+                what = None
+                names: Set[str] = set()
+                if isinstance(node, (ast.Assign, ast.AugAssign)):
+                    for t in (node.targets if isinstance(node, ast.Assign) else [node.target]):
+                        if isinstance(t, ast.Attribute) and chain(t.value) == "self":
+                            a = t.attr
+                            if a in caches or a.lstrip("_").startswith("cached") or "cache" in a or a in ("_x2_subs",):
+                                continue
+                            what, names = "self.%s = ..." % a, {a}
+                elif isinstance(node, ast.Expr) and isinstance(node.value, ast.Call) and isinstance(node.value.func, ast.Attribute) and chain(node.value.func.value) == "self":
+                    m = node.value.func.attr
+                    if m in ("update_added_loss_term",):
+                        continue
+                    regs = registers(cls, m) if m not in ("register_buffer", "register_parameter") else ({node.value.args[0].value} if node.value.args and isinstance(node.value.args[0], ast.Constant) else {"?"})
+                    if regs:
+                        what, names = "self.%s(...) [writes %s]" % (m, ", ".join(sorted(regs))[:50]), regs
+                if what is None:
+                    continue
+                gs = guards_of(fi.node, node)
+                one_time = any(truth and isinstance(t, ast.UnaryOp) and isinstance(t.op, ast.Not) and isinstance(t.operand, ast.Call) and chain(t.operand.func) == "hasattr"
+                               and len(t.operand.args) == 2 and isinstance(t.operand.args[1], ast.Constant) and t.operand.args[1].value in names for t, truth in gs)
+                if not one_time:
+                    probs.append("%s (line %d) runs on evaluation%s" % (what, node.lineno, "" if not gs else " under a data-dependent / never-latched condition"))
+            rep.add("C09-6", "%s:%s.%s" % (cls.module.name, cls.qualname, mn), fi.where, not probs,
+                    "evaluation writes caches / loss bookkeeping / one-time initialisation only" if not probs else
+                    "; ".join(probs) + ": the approximate kernel changes between the evaluation that filled the prediction caches and the evaluation at the test inputs, so the strategy's result is not the dense conditional of any one kernel matrix", {})
+    rep.floor("C09-6", "kernel forward / __call__ implementations", n, 30)
